@@ -15,28 +15,22 @@ From FH Require Import Model.Base Gen.GenC10 Model.ConnOpt Model.Serve Spec.Serv
 Open Scope nat_scope.
 
 (* ---------------- the serve loop ---------------- *)
-(* FULL STATEMENT: for every run, every final response that carries a close option is followed only by flush
-   and close, and every other final response by the connection going idle (or to a hijack handler):
-     forall F cfg E en ad rd, framer_ok F -> conn_ok (serve_conn F cfg E en ad rd) = true.
-   It is false as it stands (C10_header_iff_close_refuted); proved under the guard that hasHeaderValue
-   recognises the close option in every value a handler passes to Response.Header.Set("Connection", v). *)
+(* For every run, every final response that carries a close option is followed only by flush and close, and
+   every other final response by the connection going idle (or to a hijack handler) — provided hasHeaderValue
+   recognises the close option in every value a handler passes to Response.Header.Set("Connection", v), which
+   it does for every RFC 9110 field value (next theorem; only values with control characters other than HTAB,
+   which Set cannot even write unchanged, fall outside). *)
 Theorem C10_header_iff_close : forall F cfg E, framer_ok F -> handler_guard E -> forall en ad rd,
   conn_ok (serve_conn F cfg E en ad rd) = true.
 Proof. intros F cfg E HF Hg en ad rd. apply conn_ok_run; assumption. Qed.
 Print Assumptions C10_header_iff_close.
 
-(* the guard holds for every handler whose Set values contain no control characters *)
+(* the guard holds for every handler whose Set values are field values: no control characters but HTAB *)
 Theorem C10_header_iff_close_clean_values : forall F cfg E, framer_ok F ->
   (forall num q v, In (SetHdrConn v) (handler E num q) -> clean v = true) -> forall en ad rd,
   conn_ok (serve_conn F cfg E en ad rd) = true.
 Proof. intros F cfg E HF Hc en ad rd. apply conn_ok_run; [assumption|]. apply clean_handler_guard. exact Hc. Qed.
 Print Assumptions C10_header_iff_close_clean_values.
-
-(* finding close-option-after-htab (handler side): Set("Connection", "keep-alive,<HTAB>close") *)
-Theorem C10_header_iff_close_refuted :
-  exists F cfg E en ad rd, framer_ok F /\ conn_ok (serve_conn F cfg E en ad rd) = false.
-Proof. exact conn_ok_refuted. Qed.
-Print Assumptions C10_header_iff_close_refuted.
 
 (* each listed reason gives a response with close, directly followed by flush and close *)
 Theorem C10_close_reasons_complete : forall F cfg E, framer_ok F -> forall en ad rd,
@@ -51,7 +45,7 @@ Proof. intros F cfg E HF en ad rd. apply http10_ok_run. exact HF. Qed.
 Print Assumptions C10_http10_keepalive_header.
 
 (* ---------------- "the request asked for close" / "the response said close" ---------------- *)
-(* hasHeaderValue is the RFC list membership on values without control characters *)
+(* hasHeaderValue is the RFC list membership on field values (clean: VCHAR / obs-text / SP / HTAB) *)
 Theorem C10_hasHeaderValue_rfc : forall v, clean v = true ->
   hasHeaderValue v strClose = has_close [v] /\ hasHeaderValue v strKeepAlive = has_option opt_keep_alive [v].
 Proof. intros v H. split; [apply hhv_close_rfc|apply hhv_keepalive_rfc]; exact H. Qed.
@@ -75,14 +69,12 @@ Theorem C10_client_never_reuses_closed : forall vals noHTTP11 ic reset req_close
 Proof. exact client_never_reuses. Qed.
 Print Assumptions C10_client_never_reuses_closed.
 
-(* FULL STATEMENTS of the three theorems above have no `clean` guard; they are false: the value scanner
-   strips SP only, a close option behind an HTAB is not seen (finding close-option-after-htab) *)
-Theorem C10_close_option_refuted :
-  has_close [htab_value] = true /\ wants_close true [htab_value] = true
-  /\ req_conn_flag false false [htab_value] = false
-  /\ client_close_conn false false (resp_conn_flag false false [htab_value]) = false.
-Proof. exact req_flag_refuted. Qed.
-Print Assumptions C10_close_option_refuted.
+(* regression witness: a close option behind an HTAB is recognised by both parsers (it was not before stripSpace
+   learned about HTAB) *)
+Example C10_ex_htab : clean htab_value = true /\ has_close [htab_value] = true
+  /\ req_conn_flag false false [htab_value] = true
+  /\ client_close_conn false false (resp_conn_flag false false [htab_value]) = true.
+Proof. exact htab_witness. Qed.
 
 (* ---------------- non-vacuity on the concrete reader ---------------- *)
 Definition crlf : bytes := [13; 10]%N.
